@@ -131,10 +131,20 @@ func (a *Agent) GatherCandidates() error {
 		a.gatherCandidateCancel() // Cancel previous gathering routine
 		ctx, cancel := context.WithCancel(ctx)
 		a.gatherCandidateCancel = cancel
+		prevDone := a.gatherCandidateDone
 		done := make(chan struct{})
 		a.gatherCandidateDone = done
 
-		go a.gatherCandidates(ctx, done)
+		go func() {
+			cycleDone := make(chan struct{})
+			a.gatherCandidates(ctx, cycleDone)
+			// Close only waits for the latest done channel: keep it open until the
+			// superseded (canceled) gathering has released its sockets too.
+			if prevDone != nil {
+				<-prevDone
+			}
+			close(done)
+		}()
 	}); runErr != nil {
 		return runErr
 	}
